@@ -13,7 +13,7 @@ header / parameter values per picture, same coefficient arrays.
 import io
 import random
 
-from .. import common, trace
+from .. import common, tlc, tlaval, trace
 
 ORIENTS = {"LL": 0, "L": 0, "H": 1, "HL": 1, "LH": 2, "HH": 3}
 STATE_KEYS = [
@@ -349,8 +349,20 @@ def run_deserialiser(data):
 
     with Deserialiser(BitstreamReader(io.BytesIO(data))) as des:
         parse_stream(des, State())
+    return reconstruct(des.context)
+
+
+class Reconstruction(Exception):
+    """the deserialised slices cannot be laid out with the deserialised geometry (coordinates / counts inconsistent)"""
+
+
+def reconstruct(context):
+    from vc2_conformance.decoder.transform_data_syntax import initialize_wavelet_data, dc_prediction
+    from vc2_conformance.decoder.picture_syntax import set_quant_matrix
+    from vc2_conformance.pseudocode.parse_code_functions import using_dc_prediction
+
     units, pics = [], []
-    for seq in des.context["sequences"]:
+    for seq in context["sequences"]:
         cur = None  # fragmented picture being assembled
         custom_qm = False
         for du in seq["data_units"]:
@@ -378,34 +390,65 @@ def run_deserialiser(data):
             if whole or cur is None:
                 cur = {"arrays": {c: initialize_wavelet_data(st, c) for c in ("Y", "C1", "C2")}, "got": 0}
             hq = (st["parse_code"] & 0xF8) == 0xE8
-            for s in slices:
-                place_slice(st, cur["arrays"], s, hq)
+            try:
+                for s in slices:
+                    place_slice(st, cur["arrays"], s, hq)
+            except (IndexError, StopIteration, KeyError, TypeError) as e:
+                raise Reconstruction("%s: %s" % (type(e).__name__, e))
             cur["got"] += len(slices)
             if cur["got"] >= st["slices_x"] * st["slices_y"]:
                 if using_dc_prediction(st):
-                    for c in ("Y", "C1", "C2"):
-                        dc_prediction(cur["arrays"][c][0]["LL" if st["dwt_depth_ho"] == 0 else "L"])
+                    try:
+                        for c in ("Y", "C1", "C2"):
+                            dc_prediction(cur["arrays"][c][0]["LL" if st["dwt_depth_ho"] == 0 else "L"])
+                    except TypeError as e:  # a position no slice covered is still None
+                        raise Reconstruction("TypeError: %s" % e)
                 a = cur["arrays"]
                 pics.append({"hdr": header_of(st), "qm": quant_of(st), "y": flat_transform(a["Y"]), "c1": flat_transform(a["C1"]), "c2": flat_transform(a["C2"])})
                 cur = None
     return units, pics
 
 
+class Deadline(BaseException):
+    """CPU budget of the deserialiser on one accepted stream exhausted"""
+
+
+def _on_alarm(signum, frame):
+    raise Deadline()
+
+
+DESER_BUDGET = 10.0  # CPU seconds; the validator needs < 0.1 s on these streams
+
+
 def observe(data):
+    import signal
+
     ev = {"ev": "stream", "n": len(data)}
     acc, exc, vu, vp = run_validator(data)
     ev["accepted"] = acc
     ev["vexc"] = exc
     ev["des_ok"] = True
+    ev["recon_ok"] = True
     ev["dexc"] = ""
     ev["vunits"], ev["vpics"] = vu, vp
     ev["dunits"], ev["dpics"] = [], []
     if acc:
+        old = signal.signal(signal.SIGVTALRM, _on_alarm)
+        signal.setitimer(signal.ITIMER_VIRTUAL, DESER_BUDGET)
         try:
             ev["dunits"], ev["dpics"] = run_deserialiser(data)
+        except Deadline:
+            ev["des_ok"] = False
+            ev["dexc"] = "Deadline(%d CPU-s)" % DESER_BUDGET
+        except Reconstruction as e:
+            ev["recon_ok"] = False
+            ev["dexc"] = str(e)[:80]
         except Exception as e:  # noqa
             ev["des_ok"] = False
             ev["dexc"] = common.exc_signature(e)
+        finally:
+            signal.setitimer(signal.ITIMER_VIRTUAL, 0)
+            signal.signal(signal.SIGVTALRM, old)
     return ev
 
 
@@ -423,10 +466,10 @@ def case(arg):
 def _slim(ev):
     if ev["ev"] == "skip" or not ev["accepted"]:
         return {"tid": ev["tid"], "ev": "skip"}
-    return {k: ev[k] for k in ("tid", "ev", "accepted", "des_ok", "vunits", "dunits", "vpics", "dpics")}
+    return {k: ev[k] for k in ("tid", "ev", "accepted", "des_ok", "recon_ok", "vunits", "dunits", "vpics", "dpics")}
 
 
-def selftest(events):
+def selftest(events, convicted=False):
     from vc2_conformance.bitstream import io as bio
 
     base = next(e for e in events if e["ev"] == "stream" and e["accepted"] and e["vpics"] and any(any(p["y"]) for p in e["vpics"]))
@@ -451,6 +494,8 @@ def selftest(events):
     bad, _ = trace.validate("DeserValidatorTrace", [_slim(good), _slim(bad_ev), _slim(corrupt)])
     by = {b["tid"]: b for b in bad if b["alarm"]}
     if 1 in by:
+        if convicted:
+            return {"skipped": "reference stream of the self-test is itself flagged (%s); violations were already recorded" % by[1]["clause"]}
         raise RuntimeError("binding self-test: reference stream flagged %r" % (by[1],))
     if 2 not in by or by[2]["clause"] != "Coefficients":
         raise RuntimeError("binding self-test failed: deserialiser with wrong sign handling not flagged: %r" % (bad,))
@@ -459,8 +504,85 @@ def selftest(events):
     return {"mutant": "BitstreamReader.read_sint negating odd magnitudes (in-process monkeypatch)", "verdict": by[2], "corrupted_field": "deserialiser next_parse_offset + 1 -> clause UnitFields"}
 
 
+# ------------------------------------------------------------------------------------------------
+# G: the two bounded-block readers on every bit string (BoundedRead.tla)
+# ------------------------------------------------------------------------------------------------
+def bounded_case(arg):
+    """(bits, blk, nvals) -> both real readers' values and end position (in bits)"""
+    bits, blk, nvals = arg
+    from vc2_conformance.decoder.io import init_io, read_sintb, flush_inputb, tell
+    from vc2_conformance.bitstream.io import BitstreamReader
+    from vc2_conformance.pseudocode.state import State
+
+    padded = list(bits) + [1, 0, 1, 0, 0, 1, 0, 1] * 2
+    padded += [0] * ((-len(padded)) % 8)
+    data = bytes(int("".join(map(str, padded[i : i + 8])), 2) for i in range(0, len(padded), 8))
+    st = State()
+    init_io(st, io.BytesIO(data))
+    st["bits_left"] = blk
+    vv = [read_sintb(st) for _ in range(nvals)]
+    flush_inputb(st)
+    by, bi = tell(st)
+    vpos = by * 8 + (7 - bi)
+    r = BitstreamReader(io.BytesIO(data))
+    r.bounded_block_begin(blk)
+    dv = [r.read_sint() for _ in range(nvals)]
+    unused = r.bounded_block_end()
+    r.read_bitarray(unused)
+    by, bi = r.tell()
+    dpos = by * 8 + (7 - bi)
+    return {"vv": vv, "vpos": vpos, "dv": dv, "dpos": dpos}
+
+
+def bounded_direction(ctx):
+    consts = {"L": ctx.pick(8, 11), "MaxVals": 3}
+    cfg = open(tlc.SPEC + "/mc/BoundedRead.cfg").read().replace("L = 8", "L = %d" % consts["L"])
+    res = tlc.run("BoundedRead", cfg, dump=True, timeout=1800)
+    ctx.add_tlc(res, "exhaustive (BoundedRead: both bounded-block readers on every bit string)", consts)
+    cases = []
+    for st in tlaval.iter_dump(res.dump_path):
+        if st["ended"]:
+            cases.append((list(st["bits"]), st["blk"], len(st["vv"]), list(st["vv"]), st["v"]["pos"]))
+    if len(cases) < 1000:
+        raise RuntimeError("vacuous: %d bounded-read cases" % len(cases))
+    out = common.pmap(bounded_case, [c[:3] for c in cases])
+    dis = 0
+    for c, o in zip(cases, out):
+        if o["vv"] != o["dv"] or o["vpos"] != o["dpos"]:
+            ctx.violation(
+                "C08|bounded-read|%s" % ("values" if o["vv"] != o["dv"] else "position"),
+                "bounded block of %d bits over %s: validator reads %r and stands at bit %d, deserialiser reads %r and stands at bit %d" % (c[1], "".join(map(str, c[0])), o["vv"], o["vpos"], o["dv"], o["dpos"]),
+                {"bounded": [c[0], c[1], c[2]]},
+            )
+        elif o["vv"] != c[3] or o["vpos"] != c[4]:
+            dis += 1
+    # binding self-test: a reader whose last in-block bit reads as 1 must be caught by the same comparison
+    from vc2_conformance.bitstream import io as bio
+
+    orig = bio.BitstreamReader.read_bit
+
+    def broken(self):
+        if self._bits_remaining is not None and self._bits_remaining == 1:
+            orig(self)  # consume the last in-block bit ...
+            return 1  # ... but report 1
+        return orig(self)
+
+    bio.BitstreamReader.read_bit = broken
+    try:
+        hit = sum(1 for c in cases[:: max(1, len(cases) // 400)] for o in [bounded_case(c[:3])] if o["vv"] != o["dv"])
+    finally:
+        bio.BitstreamReader.read_bit = orig
+    if hit == 0:
+        raise RuntimeError("bounded-read binding self-test failed: a reader that forces the last in-block bit to 1 was not noticed")
+    return {"cases": len(cases), "spec_disagreements": dis, "selftest_hits": hit}
+
+
 def run(ctx):
-    n = ctx.pick(1500, 25000)
+    import os
+
+    bounded = bounded_direction(ctx)
+
+    n = ctx.pick(1500, 25000) // int(os.environ.get("VERIF_SUBSAMPLE") or 1)  # subsample: mutation-sanity runs only
     jobs = [(j + 1, ctx.seed * 100003 + j) for j in range(n)]
     events = common.pmap(case, jobs)
     for e, j in zip(events, jobs):
@@ -492,10 +614,17 @@ def run(ctx):
         extra = ""
         if b["clause"] == "Deserialises":
             extra = "|" + e["dexc"]
+        if b["clause"] == "SlicePlacement":
+            extra = "|" + e["dexc"].split(":")[0]
         what = "stream of %d bytes accepted by the validator (%r): clause %s at index %s: validator %r / deserialiser %r" % (
             e["n"], e["info"], b["clause"], b.get("at"), _pick(e, b, "v"), _pick(e, b, "d"))
         ctx.violation("C08|%s%s" % (b["clause"], extra), what, {"seed": e["seed"]})
-    st = selftest(events)
+    try:
+        st = selftest(events, bool(ctx.violations))
+    except RuntimeError as e:
+        if not ctx.violations:
+            raise
+        st = {"skipped": "self-test not conclusive on code that is already convicted by this run: %s" % e}
     npics = sum(len(e["vpics"]) for e in accepted)
     ncoef = sum(len(p["y"]) + len(p["c1"]) + len(p["c2"]) for e in accepted for p in e["vpics"])
     styles = {}
@@ -514,11 +643,12 @@ def run(ctx):
     s0 = accepted[0]
     ctx.coverage.update(
         {
-            "traces_validated_against_impl": len(accepted),
+            "traces_validated_against_impl": len(accepted) + bounded["cases"],
             "evaluations": ncoef,
             "distinct_nontrivial": len(distinct),
             "rule": "each stream accepted by the validator is also deserialised; TLC compares the data-unit lists, the per-picture header/parameter values and the coefficient arrays; evaluations = coefficients compared; non-trivial = accepted streams with at least one picture, distinct by (length, unit list)",
             "exhaustive": False,
+            "exhaustive_part": "BoundedRead.tla: every bit string of length L x every block length x 3 values, both readers executed on each",
             "generated": n,
             "accepted_by_validator": len(accepted),
             "not_used": reasons,
@@ -526,8 +656,9 @@ def run(ctx):
             "slice_styles": styles,
             "profiles": {"ld": sum(1 for e in accepted if e["info"]["profile"] == 0), "hq": sum(1 for e in accepted if e["info"]["profile"] == 3)},
             "fragmented": sum(1 for e in accepted if e["info"]["frag"]),
-            "spec_disagreements": logged,
-            "binding_selftest": st,
+            "spec_disagreements": {"trace_logged_clauses": logged, "bounded_read_spec_vs_code": bounded["spec_disagreements"]},
+            "bounded_read_cases": bounded["cases"],
+            "binding_selftest": dict(st, bounded_read_mutant_hits=bounded["selftest_hits"]),
             "samples": [{"n": s0["n"], "info": s0["info"], "units": s0["vunits"], "hdr": s0["vpics"][0]["hdr"][:12] if s0["vpics"] else [], "y": s0["vpics"][0]["y"][:16] if s0["vpics"] else []}],
         }
     )
@@ -560,6 +691,9 @@ def _pick(e, b, side):
 
 
 def replay(case_):
+    if "bounded" in case_:
+        o = bounded_case(tuple(case_["bounded"]))
+        return {"violations": [o] if (o["vv"] != o["dv"] or o["vpos"] != o["dpos"]) else [], "observed": o}
     ev = case((1, case_["seed"]))
     bad, _ = trace.validate("DeserValidatorTrace", [_slim(ev)])
     return {"violations": [b for b in bad if b["alarm"]], "info": ev.get("info"), "accepted": ev.get("accepted")}
